@@ -49,6 +49,26 @@ func layout(toks []synTok, mode int, rng *rand.Rand) (string, []int) {
 		}
 		return " "
 	}
+	// a line comment of every shape: empty, one character, a second '#', text with token-like and non-ASCII characters, CRLF-ended
+	comment := func() string {
+		switch rng.Intn(8) {
+		case 0:
+			return "#\n"
+		case 1:
+			return "#\r\n"
+		case 2:
+			return "##\n"
+		case 3:
+			return "#x\n"
+		case 4:
+			return "# \n"
+		case 5:
+			return "#\n#\n"
+		case 6:
+			return "# c é\n"
+		}
+		return "# a comment ; { ( \" é 世\n"
+	}
 	for i, t := range toks {
 		if t.Sep {
 			switch {
@@ -63,7 +83,7 @@ func layout(toks []synTok, mode int, rng *rand.Rand) (string, []int) {
 				case 2:
 					b.WriteString("\n\n")
 				case 3:
-					b.WriteString(" # a comment ; { ( \" é 世\n")
+					b.WriteString(blank() + comment())
 				case 4:
 					b.WriteString(";\n")
 				default:
@@ -110,7 +130,7 @@ func layout(toks []synTok, mode int, rng *rand.Rand) (string, []int) {
 				case 1:
 					b.WriteString("\n\n  ")
 				case 2:
-					b.WriteString("# c é\n\t")
+					b.WriteString(comment() + blank())
 				}
 			}
 		}
